@@ -74,7 +74,8 @@ def run(chk):
     m = {"name": b"x", "ts": b"0", "uid": b"0", "gid": b"0", "mode": b"644", "data": b"", "size_text": b"-60"}
     bufs.append(argen.render([m]))
     m2 = dict(m, size_text=b"10"); bufs.append(argen.render([m2]) + b"ab")
-    bufs = [b for b in bufs if not has_uspace_header(b)]
+    bufs.append(argen.render([dict(m, name=b'n\xc2\xa0', size_text=b'0')]))        # a name ending in U+00A0
+    bufs.append(argen.render([dict(m, ts=b'\xe2\x80\x831\xc2\xa0', size_text=b'0')]))
     cases = [("ariter", [b]) for b in bufs]
     impl, model = chk.run_both(cases)
     chk.compare("hostile-archives", cases, impl, model, nontrivial=lambda c, r: r != "notar")
@@ -92,7 +93,7 @@ def run(chk):
     except ImportError:
         chk.notes.append(".deb streams not built yet")
     chk.assumptions += ["in-memory io.ReaderAt", "the third-party xz/lzma/bzip2/zstd decoders on hostile streams are outside the claim (property text)",
-                        "inputs with non-ASCII Unicode space encodings are not generated (ASCII-space model of strings.TrimSpace)"]
+                        "the executed header parser trims Unicode whitespace exactly as Go does (ARu)"]
 
 
 def replay(chk, d):
